@@ -853,6 +853,10 @@ theorem adjC_of_adj3 {s : Str} (h : Adj3 s) (lax : Bool) : AdjC lax s := by
           exact h2 [] r' rfl
       · exact headOK_of_ne h1 h1' _
 
+/-- without brackets there is no region -/
+theorem adjC_of_no_bracket {s : Str} (h : NoAdj s) (h1 : '[' ∉ s) (h2 : ']' ∉ s) : AdjC true s :=
+  adjC_of_adj3 (adj3_of_no_bracket h h1 h2) true
+
 /-- **replace** for `AdjC` -/
 theorem adjC_replace {X M Y T : Str} (h : AdjC true (X ++ M ++ Y)) (hM : breaks M = true) (hT : SepOK3 T) :
     AdjC true (X ++ T ++ Y) := by
